@@ -7,6 +7,7 @@ from xitorch.interpolate import Interp1D
 
 import symtorch
 from symtorch import S, T, D, _r
+from harness.base import grads
 
 PROPERTY = "C14"
 DEFAULT_OPTS = {"validate": 2, "timeout_ms": 20000, "budget_s": 400, "max_paths": 60}
@@ -198,6 +199,39 @@ def extrapolation(cx, mode="nan", method="linear"):
     return "ok"
 
 
+def extrap_grad(cx, mode="mirror", method="linear"):
+    """queries outside the sample range, differentiated w.r.t. the query points and the samples: the result is the
+    interpolant at the mapped position, so d/dxq = (derivative of the interpolant there) x (derivative of the position map:
+    0 for bound, -1 in odd reflections / +1 in even ones for mirror, +1 for periodic)"""
+    x = cx.const(torch.tensor([0.0, 0.5, 1.5, 2.0], dtype=torch.float64))
+    yfree = cx.sym("y", (4,), requires_grad=True)
+    kw = {} if method == "linear" else {"bc_type": "natural"}
+    w = cx.sym("w", (4,))
+    xq = cx.const(torch.tensor([-0.75, 2.5, 4.25, -2.5], dtype=torch.float64)).requires_grad_()
+    if mode == "periodic":
+        y = torch.cat([yfree[:3], yfree[:1]])
+        pos, sign = [1.25, 0.5, 0.25, 1.5], [1.0, 1.0, 1.0, 1.0]
+    elif mode == "mirror":
+        y = yfree
+        pos, sign = [0.75, 1.5, 0.25, 1.5], [-1.0, -1.0, 1.0, 1.0]
+    else:   # bound
+        y = yfree
+        pos, sign = [0.0, 2.0, 2.0, 0.0], [0.0, 0.0, 0.0, 0.0]
+    out = Interp1D(x, y, method=method, extrap=mode, assume_sorted=True, **kw)(xq)
+    p = cx.const(torch.tensor(pos, dtype=torch.float64)).requires_grad_()
+    ref = Interp1D(x, y, method=method, assume_sorted=True, **kw)(p)
+    cx.claim_eq("value at the mapped position", out, ref)
+    gq, gy = grads((w * out).sum(), [xq, yfree])
+    rp, ry = grads((w * ref).sum(), [p, yfree])
+    sg = cx.const(torch.tensor(sign, dtype=torch.float64))
+    if mode == "bound":
+        cx.claim_eq("d/dxq = 0 outside the range", gq, torch.zeros_like(xq))
+    else:
+        cx.claim_eq("d/dxq = interpolant's derivative x derivative of the position map", gq, rp * sg)
+    cx.claim_eq("d/dy", gy, ry)
+    return "ok"
+
+
 def configs(tier):
     cfgs = []
 
@@ -220,6 +254,10 @@ def configs(tier):
         add("extrap/%s/linear" % mode, extrapolation, mode=mode, method="linear")
     for mode in ("zero", "bound", "mirror"):
         add("extrap/%s/cspline" % mode, extrapolation, mode=mode, method="cspline")
+    for mode in ("bound", "mirror", "periodic"):
+        add("extrap_grad/%s/linear" % mode, extrap_grad, mode=mode, method="linear")
+    add("extrap_grad/mirror/cspline", extrap_grad, mode="mirror", method="cspline")
+    add("extrap_grad/bound/cspline", extrap_grad, mode="bound", method="cspline")
     if tier == "thorough":
         big = {"budget_s": 1700, "timeout_ms": 90000}
         for bc in ("natural", "not-a-knot", "periodic", "clamped"):
